@@ -20,9 +20,9 @@ ASSUMPTIONS = ['the probed attribute changes every 0.5 time units by an event of
 
 
 def cases():
-    def build(src_c, proc_c, iv, cap, n, ncb, cms, fault, T, pol, seed, late, twin, readd, cms2):
+    def build(src_c, proc_c, iv, cap, n, ncb, cms, fault, T, pol, seed, late, twin, readd, cms2, init):
         return {'late': late, 'twin_name': twin, 'readd': readd, 'src_c': src_c, 'proc_c': proc_c, 'iv': iv, 'cap': cap, 'n': n, 'ncb': ncb, 'cms': cms,
-                'fault': fault, 'T': T, 'tb': [pol, seed], 'cms2': cms2}
+                'fault': fault, 'T': T, 'tb': [pol, seed], 'cms2': cms2, 'init': bool(init and not late)}
     return st.builds(build, st.sampled_from([0.5, 1, 2]), st.sampled_from([0.25, 1, 1.5]),
                      st.sampled_from([0.25, 0.5, 1.25, 3, 0.1, 0.3, 1 / 3, 0.7]),
                      st.sampled_from([1, 2, 3, 7, 'inf']), st.sampled_from([0, 1, 2, 4]), st.integers(0, 3),
@@ -30,7 +30,8 @@ def cases():
                      st.sampled_from([None, None, [4, 8], [2.5, 3]]), st.sampled_from([6, 15, 25]),
                      st.sampled_from(['random', 'fifo', 'lifo', 'const']), st.integers(0, 10 ** 6),
                      st.sampled_from([None, None, 0.75, 2.5, 3]), st.sampled_from([None, None, 0.5, 1.5]),
-                     st.sampled_from([None, 1.5, 3.25]), st.sampled_from([False, False, True]))
+                     st.sampled_from([None, 1.5, 3.25]), st.sampled_from([False, False, True]),
+                     st.sampled_from([False, False, False, True]))
 
 
 def valid(case):
